@@ -139,12 +139,33 @@ def borrowed_fields(db, E, rec):
     return borrowed, fields
 
 
+def _pure_ops(ops, floor, what):
+    """R-QUERYPURE restricted to some query operations and to the iterator classes those operations create."""
+    def run(db, rep):
+        qm = [(k, op, m) for k, op, m in query_methods(db) if op in ops]
+        cone = db.closure([m for _, _, m in qm])
+        its = [i for i in iterator_classes(db) if any(db.funcs[fid].is_ctor and db.funcs[fid].rec == i for fid in cone)]
+        _querypure(db, rep, qm, its)
+    rule("R-PURE-" + what, floor, "R-QUERYPURE restricted to %s and the iterators they return: no write to dictionary state, "
+                                  "globals/statics or borrowed memory" % "/".join(ops))(run)
+
+
+_pure_ops(("locate", "extract"), 24, "BASIC")
+_pure_ops(("locatePrefix", "extractPrefix"), 40, "PREFIX")
+_pure_ops(("locateSubstr", "extractSubstr"), 30, "SUBSTR")
+_pure_ops(("locateRank", "extractRank"), 24, "RANK")
+
+
 @rule("R-QUERYPURE", 120, "no query of any kind, and no iterator step, writes dictionary state, a global, or memory "
                           "an iterator merely borrows; iterators write only their own fields and buffers")
 def r_querypure(db, rep):
+    _querypure(db, rep, query_methods(db), iterator_classes(db))
+
+
+def _querypure(db, rep, qmethods, itclasses):
     E = get_effects(db)
     seen = set()
-    for k, op, m in query_methods(db):
+    for k, op, m in qmethods:
         rep.visit(m)
         S = E.sum[m.id]
         rep.inst(m.loc, "%s: MOD=%d FREE=%d" % (m.qn, len(S.mod), len(S.free)))
@@ -157,7 +178,7 @@ def r_querypure(db, rep):
             if key not in seen:
                 seen.add(key)
                 rep.viol(key, loc, msg, fn)
-    for it in iterator_classes(db):
+    for it in itclasses:
         borrowed, fields = borrowed_fields(db, E, it)
         for name in ("hasNext", "next"):
             for m in db.methods_of(it, name):
